@@ -27,26 +27,24 @@ vars == <<env, hist, raised>>
 (* env: [subset of Tasks -> [status : Statuses \cup {"none"}, e : Entries]] -- the status is kept apart from the
    other keys of the entry for readability; it lives in the same dictionary in the code *)
 
-RECURSIVE Clash(_, _)
-(* _apply_worker(update, old) raises when a mapping of the update meets a leaf of the environment *)
-Clash(old, upd) == \E k \in DOMAIN upd \cap DOMAIN old :
-                      IsNode(upd[k]) /\ (IF IsNode(old[k]) THEN Clash(old[k].m, upd[k].m) ELSE DOMAIN upd[k].m # {})
-(* (an EMPTY nested mapping of the update is merged into a leaf without effect and without error: the merge loop
-   has nothing to do) *)
+(* The update wins: a mapping of the update is merged into a mapping of the environment and REPLACES anything else it
+   meets (a leaf left by an earlier run whose result had another shape).  Until repository commit 63b18ae the code
+   recursed into the leaf and raised in the middle of the merge -- in the queue backend inside the worker thread,
+   which made schedule() hang (C03); Clash is kept, constantly false, so that the trace clauses read the same. *)
+Clash(old, upd) == FALSE
 RECURSIVE Merge(_, _)
-(* the merged mapping (meaningful when ~Clash) *)
 Merge(old, upd) ==
    [k \in DOMAIN old \cup DOMAIN upd |->
       IF k \notin DOMAIN upd THEN old[k]
-      ELSE IF IsNode(upd[k]) /\ k \in DOMAIN old
-           THEN (IF IsNode(old[k]) THEN Node(Merge(old[k].m, upd[k].m)) ELSE old[k])
+      ELSE IF IsNode(upd[k]) /\ k \in DOMAIN old /\ IsNode(old[k])
+           THEN Node(Merge(old[k].m, upd[k].m))
       ELSE upd[k]]
 
 (* readable: every key/value of the update is found in the merged mapping, recursively *)
 RECURSIVE Readable(_, _)
 Readable(m, upd) == \A k \in DOMAIN upd :
                        /\ k \in DOMAIN m
-                       /\ IF IsNode(upd[k]) THEN DOMAIN upd[k].m = {} \/ (IsNode(m[k]) /\ Readable(m[k].m, upd[k].m))
+                       /\ IF IsNode(upd[k]) THEN IsNode(m[k]) /\ Readable(m[k].m, upd[k].m)
                           ELSE m[k] = upd[k]
 (* nothing else is lost: keys the update does not mention keep their value *)
 RECURSIVE Preserved(_, _, _)
@@ -88,5 +86,6 @@ Next == \E t \in Tasks : \/ \E u \in Maps(L1) : Apply(t, u)
 Spec == Init /\ [][Next]_vars
 
 W_Nested == ~(\E t \in DOMAIN env : \E k \in DOMAIN env[t].e.m : IsNode(env[t].e.m[k]) /\ Cardinality(DOMAIN env[t].e.m[k].m) = 2)
-W_Raised == ~raised
+W_Replaced == ~(\E i \in DOMAIN hist : hist[i].op = "apply" /\ i > 1 /\ \E k \in DOMAIN hist[i].u : IsNode(hist[i].u[k])
+                 /\ \E j \in 1 .. i - 1 : hist[j].op = "apply" /\ hist[j].t = hist[i].t /\ k \in DOMAIN hist[j].u /\ ~IsNode(hist[j].u[k]))
 =============================================================================
